@@ -232,10 +232,11 @@ theorem core_dirsFrom (w : World) (c : Call) (r : Res) : DirsFrom w (core w c r)
       | exact dirsFrom_applyWrite _ _ _ _
       | (apply getD_bind_P (P := DirsFrom w) refl; intro _ _)
       | (apply getD_map_P (P := DirsFrom w) refl; intro _ _)
-      | (refine dirsFrom_handles ?_; simp; done)
+      | exact dirsFrom_handles rfl
       | (refine dirsFrom_set (h := _) (o := _) rfl ?_; intro _ _ _ h;
           first | (cases h; done) | (cases h; simp [World.dirPath, *]; done))
       | (refine dirsFrom_new (o := _) rfl ?_; intro _ _ _ h; first | (cases h; done) | (cases h; simp [*]; done))
+      | (refine dirsFrom_handles ?_; simp only [handles_bind, handles_unbind, handles_setFile, handles_setMtime]; done)
       | (refine dirsFrom_new (o := Obj.file w.nextFid 0 true) ?_ ?_
          · simp [World.newHandle]
          · intro _ _ _ h; cases h)
